@@ -154,14 +154,31 @@ Lemma set_nth_app pre x k c : set_nth (pre ++ x :: repeat 0 k) (length pre) c = 
 Proof. induction pre as [|h pre IH]; [reflexivity|]. cbn [app length set_nth]. rewrite IH. reflexivity. Qed.
 
 Lemma dec_continue_eq e i : dec_continue e i = negb (e =? 0) && negb (Nat.eqb i 9).
-Proof. unfold dec_continue. rewrite c_reserve, c_call_size. reflexivity. Qed.
+Proof. unfold dec_continue, dec_continue_with. rewrite c_reserve, c_call_size. reflexivity. Qed.
+
+Lemma decode_loop_eq fuel e i res :
+  decode_loop fuel e i res =
+  if dec_continue e i then
+    match fuel with
+    | O => None
+    | S f =>
+        match nth_error ConstsCallsign.callsign_map (N.to_nat (e mod ConstsCallsign.dec_mod)) with
+        | None => None
+        | Some ch => match set_nth res i ch with
+                     | None => None
+                     | Some res' => decode_loop f (e / ConstsCallsign.dec_div) (S i) res'
+                     end
+        end
+    end
+  else Some res.
+Proof. unfold decode_loop, dec_continue. destruct fuel; reflexivity. Qed.
 
 Lemma decode_loop_char : forall n e pre fuel, (length pre + n = 9)%nat -> (n <= fuel)%nat ->
   decode_loop fuel e (length pre) (pre ++ repeat 0 (S n)) =
   Some (pre ++ map tbl (digits40 n e) ++ repeat 0 (S n - length (digits40 n e))).
 Proof. induction n as [|n IH]; intros e pre fuel L F.
-- assert (length pre = 9%nat) by lia. destruct fuel; cbn [decode_loop]; rewrite dec_continue_eq, H, andb_false_r; reflexivity.
-- destruct fuel as [|fuel]; [lia|]. cbn [decode_loop digits40]. rewrite dec_continue_eq.
+- assert (length pre = 9%nat) by lia. rewrite decode_loop_eq, dec_continue_eq, H, andb_false_r. reflexivity.
+- destruct fuel as [|fuel]; [lia|]. rewrite decode_loop_eq. cbn [digits40]. rewrite dec_continue_eq.
   replace (Nat.eqb (length pre) 9) with false by (symmetry; apply Nat.eqb_neq; lia).
   destruct (e =? 0) eqn:E0; cbn [negb andb]; [reflexivity|].
   rewrite c_dec_mod, c_dec_div. rewrite (table_lookup (e mod 40)) by (apply N.mod_lt; lia).
@@ -185,11 +202,16 @@ Definition decoded_of (v : N) : list N := pad10 (map tbl (digits40 9 v)).
 
 Lemma decode_not_broadcast a : a <> ConstsCallsign.broadcast_address ->
   decode_callsign a = Some (decoded_of (be_value a)).
-Proof. intros H. unfold decode_callsign. destruct (list_N_eqb a _) eqn:E; [apply list_N_eqb_eq in E; contradiction|].
+Proof. intros H. unfold decode_callsign, decode_callsign_with. fold decode_loop. destruct (list_N_eqb a _) eqn:E; [apply list_N_eqb_eq in E; contradiction|].
   rewrite c_call_size, address_value_be.
   pose proof (decode_loop_char 9 (be_value a) [] 64 eq_refl ltac:(lia)) as K.
   etransitivity; [exact K|]. cbn [app].
   unfold decoded_of, pad10. rewrite map_length. reflexivity. Qed.
+
+(** the loop as it was before fix 766f992 (no bound): the address 40^9 fills all ten characters - the defect F3 *)
+Lemma unbounded_loop_unterminated :
+  decode_callsign_with None [0xEE; 0x6B; 0x28; 0; 0; 0] = Some (repeat 120 9 ++ [65]).
+Proof. vm_compute. reflexivity. Qed.
 
 Lemma decode_broadcast : decode_callsign ConstsCallsign.broadcast_address = Some ConstsCallsign.broadcast_call.
 Proof. reflexivity. Qed.
